@@ -1,10 +1,11 @@
 (* C09 -- background work always settles.
-   Model: theories/Tags.v; proofs: theories/TagsC09.v.  What is proved: SAFETY OF SETTLING (whatever is
-   pending has a job in flight; at rest nothing is pending and no merge is eligible).  What is NOT proved:
-   that every sequence of completions is finite (termination measure) -- see notes/C09.md; the scenario
-   harness bounds the number of completions on the real code instead. *)
+   Model: theories/Tags.v; proofs: theories/TagsC09.v (pending work is covered by a job) and
+   theories/TagsC09T.v (termination).  Proved for the repaired instance (= the Go code after 56f3838, d1a158c,
+   94a00a7): from every state that satisfies the invariant Tinv, every schedule of job bodies and completions
+   is finite and ends in a quiescent state.  What remains: Tinv is shown for the initial state and preserved by
+   every job step, but its preservation by the API calls themselves is not proved (see notes/C09.md). *)
 From Coq Require Import List NArith Bool.
-From Pk Require Import Tags TagsC16 TagsC06 TagsC09.
+From Pk Require Import Tags TagsC16 TagsC06 TagsC09 TagsC09T.
 Import ListNotations.
 Open Scope N_scope.
 
@@ -38,6 +39,34 @@ Proof. intros k l st K Hl H NJ. apply rest_quiescent; [apply covered_job_run; as
 Theorem C09_uncertain_implies_eligible :
   forall ts, sorted ts -> ranked ts -> dead_clean ts -> all_certain ts = false -> first_eligible ts <> None.
 Proof. exact eligible_exists. Qed.
+
+(* ---- termination (theories/TagsC09T.v).  jstep st st' : some job body or completion that is enabled in st fires
+   (any choice of the tagging job, any well-formed importer response with processedFiles >= 1, any search result).
+   mu : state -> list nat is the measure [import queue/phase; cache potential (uncached / doomed converter
+   outputs); pending converted set; stale tagging job; masks non-empty; uncertain tags; tagging phase; converter
+   queue/phase; index files/merge phase], compared lexicographically. *)
+Theorem C09_measure_decreases :
+  forall st st', Tinv st -> jstep st st' -> lexlt (mu st') (mu st).
+Proof. exact jstep_decreases. Qed.
+
+Theorem C09_invariant_preserved_by_job_steps :
+  forall st st', Tinv st -> jstep st st' -> Tinv st'.
+Proof. exact Tinv_jstep. Qed.
+
+(* every schedule of job steps from a Tinv state is finite ... *)
+Theorem C09_every_schedule_terminates :
+  forall st, Tinv st -> Acc (fun b a => jstep a b) st.
+Proof. exact jstep_terminates. Qed.
+
+(* ... and where it stops nothing is in flight and nothing is pending: queue empty, no tag eligible and in fact
+   no tag uncertain, nothing queued for a converter, no eligible merge *)
+Theorem C09_schedules_end_quiescent :
+  forall st st', Tinv st -> jsteps st st' -> (forall st'', ~ jstep st' st'') ->
+  quiescent st' /\ all_certain (tags st') = true.
+Proof. exact schedules_end_quiescent. Qed.
+
+Theorem C09_initial_state_invariant : forall cs, NoDup cs -> Tinv (init cs).
+Proof. exact Tinv_init. Qed.
 
 (* The unrepaired code (56f3838; corpus/C09/merge-not-restarted-after-convert.json): at rest with an eligible
    merge that nothing will start *)
